@@ -355,3 +355,17 @@ fn k_sctl_new_observer__every_upstream_error_reaches_its_handler() {
   assert!(log.is(&[EV_E | i as u32, EV_E | 0x1000 | j as u32]), "sctl.new_observer: an upstream error did not reach the error handler the observer was created with, once, unchanged");
   kani::cover!(true, "harness reaches its end");
 }
+
+// ---- new_observer on a controller that has already ended: the observer is born ended (not subscribed, nothing registered), so
+// that Observable::inner_subscribe does not run any source on its behalf.  (switch_on_next / flat_map / concat / retry build upstream
+// observers lazily, possibly after an earlier input has ended the stream synchronously; a live observer created then would keep a
+// hot source, and the operator closures in between, attached until that source next emits.)
+sctl_h!(k_sctl_new_observer__on_an_ended_controller_is_born_ended, 0, false, false, |r| {
+  r.sctl.finalize();
+  let u = upstream(r.log, &r.sctl, 0);
+  assert!(!u.is_subscribed(), "sctl.end: an upstream observer created after the subscription ended is subscribed");
+  assert!(r.map_len() == 0, "sctl.end: upstream map not empty");
+  u.next(kani::any());
+  u.complete();
+  assert!(r.downstream() == (0, 0), "sctl.after_end: an event was delivered after the end");
+});
